@@ -4,16 +4,19 @@
 
   Modelled code (as it is in /repo now):
     * `_factories._TzOffsetFactory.__call__` / `_TzStrFactory.__call__`   (kind `lru`)
-        instance = cls.__instances.get(key, None)                       lGet
-        if instance is None:                                            lTest
-            instance = cls.__instances.setdefault(key,                  lAlloc, lInit (construction)
-                                                  cls.instance(...))    lSetdef
         with cls._cache_lock:                                           lAcq
+            instance = cls.__instances.get(key, None)                   lGet
+            if instance is None:                                        lTest
+                instance = cls.__instances.setdefault(key,              lAlloc, lInit (construction)
+                                                      cls.instance(...))   lSdRead, lSdWrite
             cls.__strong_cache[key] = cls.__strong_cache.pop(key, instance)   xTouch
             if len(cls.__strong_cache) > cls.__strong_cache_size:       xLen
                 cls.__strong_cache.popitem(last=False)                  xEvict
                                                                         xRel   (`with` exit)
         return instance                                                 xRet
+      `WeakValueDictionary.setdefault` is modelled as what its pure-Python body is: a READ of the
+      entry (lSdRead, into the local `o` = `seen`) followed by a WRITE when the read found nothing
+      (lSdWrite) — two separately schedulable steps, NOT one atomic step.
     * `tz.__get_gettz.GettzFunc.__call__`                                (kind `gettz`)
         with self._cache_lock:                                          gAcq
             rv = self.__instances.get(name, None)                       gGet
@@ -38,15 +41,18 @@
   Objects are ids (`Nat`, allocated from a counter); `inited` records the ids whose
   construction finished.  `weak` is the `WeakValueDictionary` (an entry may vanish — step
   `collect k` — once its id has no strong reference: not in `strong`, not held by a caller, not
-  in a local variable of any thread, not the singleton slot).  `strong` is the `OrderedDict`
+  in a local variable (`instance`, the new object, `o`) of any thread, not the singleton slot).  `strong` is the `OrderedDict`
   (front = oldest).  `held` are the references callers keep: a reference is handed over at the
   call's linearisation point (the `with` exit that follows the LRU touch; for the singleton the
   `return`), carries the epoch (number of `cache_clear`s so far) and an (owner, seq) ticket so a
   caller can drop it later (step `drop`).
 
-  Trusted base (atomic steps with their documented meaning): `WeakValueDictionary.get`,
-  `.setdefault`, `__setitem__`; `OrderedDict.pop(key, default)`, `__setitem__` (append when
-  absent), `popitem(last=False)`, `clear`, `len`; lock acquire/release (mutual exclusion).
+  Trusted base: a single read (`get`, the lookup inside `setdefault`) or a single write
+  (`__setitem__`, the store inside `setdefault`) of the weak dictionary is one step, as is the
+  removal of a dead entry (`collect`); lock acquire/release give mutual exclusion.  The
+  `OrderedDict` operations (`pop(key, default)`, `__setitem__`, `popitem(last=False)`, `clear`, `len`)
+  have their documented sequential meaning; their atomicity is NOT assumed — `lock_discipline`
+  shows they only ever run under the lock.
 
   No Mathlib import: linked into the compiled driver.
 -/
@@ -76,7 +82,7 @@ inductive Op
 
 inductive Pc
   | idle
-  | lGet | lTest | lAlloc | lInit | lSetdef | lAcq
+  | lAcq | lGet | lTest | lAlloc | lInit | lSdRead | lSdWrite
   | xTouch | xLen | xEvict | xRel | xRet
   | gAcq | gGet | gTest | gAlloc | gInit | gCheck | gStore | gRelE | gRetE
   | sAcq | sSet | sLoop | sPop | sRel
@@ -91,6 +97,7 @@ structure Thread where
   arg : Nat := 0
   inst : Option Id := none     -- local `instance` / `rv`
   tmp : Option Id := none      -- freshly constructed object not yet bound to `instance`
+  seen : Option Id := none     -- the local `o` inside `WeakValueDictionary.setdefault`
   nret : Nat := 0              -- number of references this thread's calls have handed out
   todo : List Op := []
   deriving Repr
@@ -148,7 +155,7 @@ def tstep (kd : Kind) (res : Key → Res) (t : Tid) (g : Glob) (th : Thread) : O
     | [] => none
     | .call k :: rest =>
         some (g, { th with key := k, todo := rest, inst := none, tmp := none,
-                           pc := match kd with | .lru => .lGet | .gettz => .gAcq | .single => .uTest })
+                           pc := match kd with | .lru => .lAcq | .gettz => .gAcq | .single => .uTest })
     | .fresh k :: rest =>
         some (g, { th with key := k, todo := rest, inst := none, tmp := none, pc := .fAlloc })
     | .setSize n :: rest =>
@@ -159,23 +166,26 @@ def tstep (kd : Kind) (res : Key → Res) (t : Tid) (g : Glob) (th : Thread) : O
         if kd = .gettz then some (g, { th with todo := rest, pc := .cAcq })
         else some (g, { th with todo := rest })
   -- ---------------- _TzOffsetFactory / _TzStrFactory ----------------
+  | .lAcq =>
+    if g.lock = none then some ({ g with lock := some t }, { th with pc := .lGet }) else none
   | .lGet => some (g, { th with inst := g.weak th.key, pc := .lTest })
-  | .lTest => some (g, { th with pc := if th.inst.isNone then .lAlloc else .lAcq })
+  | .lTest => some (g, { th with pc := if th.inst.isNone then .lAlloc else .xTouch })
   | .lAlloc => some ({ g with next := g.next + 1 }, { th with tmp := some g.next, pc := .lInit })
   | .lInit =>
     match th.tmp with
-    | some i => some ({ g with inited := i :: g.inited }, { th with pc := .lSetdef })
+    | some i => some ({ g with inited := i :: g.inited }, { th with pc := .lSdRead })
     | none => none
-  | .lSetdef =>
+  -- WeakValueDictionary.setdefault: `o = self.data[key]()` …
+  | .lSdRead => some (g, { th with seen := g.weak th.key, pc := .lSdWrite })
+  -- … `if o is None: self.data[key] = KeyedRef(default, …); return default` / `else: return o`
+  | .lSdWrite =>
     match th.tmp with
     | some i =>
-      match g.weak th.key with
-      | some j => some (g, { th with inst := some j, tmp := none, pc := .lAcq })
+      match th.seen with
+      | some j => some (g, { th with inst := some j, tmp := none, seen := none, pc := .xTouch })
       | none => some ({ g with weak := upd g.weak th.key (some i) },
-                      { th with inst := some i, tmp := none, pc := .lAcq })
+                      { th with inst := some i, tmp := none, seen := none, pc := .xTouch })
     | none => none
-  | .lAcq =>
-    if g.lock = none then some ({ g with lock := some t }, { th with pc := .xTouch }) else none
   -- ---------------- shared tail: LRU touch under the lock ----------------
   | .xTouch =>
     match th.inst with
@@ -273,7 +283,7 @@ inductive Label
 /-- strong references to object `i`: the LRU, callers, local variables of any thread, the singleton slot -/
 def rooted (s : State) (i : Id) : Bool :=
   s.g.strong.any (fun e => e.2 == i) || s.g.held.any (fun r => r.id == i) || s.g.single == some i ||
-  s.ths.any (fun th => th.inst == some i || th.tmp == some i)
+  s.ths.any (fun th => th.inst == some i || th.tmp == some i || th.seen == some i)
 
 def step (kd : Kind) (res : Key → Res) (s : State) : Label → Option State
   | .thr t =>
